@@ -1,7 +1,7 @@
 \* behaviour generation for membership / range proofs, the code as it is
 CONSTANTS
   H = 4
-  MaxV = 2
+  MaxV = 3
   MaxKeys = 7
   EmptyTrieVerifies = FALSE
   CheckValueDepth = FALSE
